@@ -4,6 +4,9 @@
 set -e
 cd "$(dirname "$0")/.."
 export GOFLAGS=-mod=mod GOPROXY=off; unset GOSUMDB
+if [ -n "$(git -C "${VERIF_REPO:-/repo}" status --porcelain)" ]; then
+  echo "pin-gen: ${VERIF_REPO:-/repo} has uncommitted changes (a seeded change applied?) - refusing to snapshot its facts" >&2; exit 1
+fi
 [ -x .work/extract.bin ] || ( cd extract && GOTOOLCHAIN=local go build -o ../.work/extract.bin . )
 mkdir -p .work/genpin && .work/extract.bin -repo "${VERIF_REPO:-/repo}" -out .work/genpin >/dev/null
 mkdir -p lean-judge/KM/Gen
